@@ -583,6 +583,7 @@ pub fn judge(case: &Case) -> Verdict {
     v.class_name = case.class.clone();
     v.case_key = fnv(&format!("{script}|{}", case.cfg.capacity));
     v.harness_error = r.harness_error.clone();
+    v.schedule = r.schedule.clone();
     let blocked = r.stats.probes.get("writer_blocked_on_full_pipe").copied().unwrap_or(0) > 0;
     v.nontrivial = blocked || m.has_early_exit || payload_bytes(case) > case.cfg.capacity as u64;
     if r.stats.probes.contains_key("writer_blocked_on_full_pipe") {
